@@ -106,7 +106,11 @@ func TestC03UDPDegenerate(t *testing.T) {
 	if ev.Shard() > 1 {
 		return
 	}
-	junk := [][]byte{{}, {0}, {0, 10}, {0, 10, 0}, make([]byte, 15), make([]byte, 16), {0xff}, {}, {}}
+	// ... and data sets for the template the collector holds that carry no record: a set of its
+	// header only, and one whose body is a single byte of padding
+	empty := ref.EncodeMessage(ref.Header{Domain: 12, Seq: 99}, 256, nil)
+	padOnly := ref.EncodeMessage(ref.Header{Domain: 12, Seq: 99}, 256, []byte{0})
+	junk := [][]byte{{}, {0}, {0, 10}, {0, 10, 0}, make([]byte, 15), make([]byte, 16), {0xff}, {}, {}, empty, padOnly, empty}
 	for _, mode := range []string{"Strict", "LenientKeepUnknown"} {
 		c := UDPCase{Mode: mode, Junk: junk}
 		f := runUDP(c)
